@@ -70,6 +70,14 @@ func runC09(c *vk.Ctx) {
 		rewardDenoms := []string{"uosmo", "rwd"}
 		everFinished := map[uint64]sdk.Coins{}
 
+		// the block time at which the harness will run the next epoch block (so that a gauge can be given a
+		// start time that coincides with it exactly)
+		var plannedEpochTime time.Time
+		planEpoch := func() {
+			info := ch.App.EpochsKeeper.GetEpochInfo(ch.Ctx, "week")
+			plannedEpochTime = info.CurrentEpochStartTime.Add(info.Duration).Add(time.Duration(1 + r.I64n(int64(10*time.Minute))))
+		}
+		planEpoch()
 		doOps := func(n int) {
 			for k := 0; k < n; k++ {
 				oi := r.Intn(len(owners))
@@ -130,11 +138,16 @@ func runC09(c *vk.Ctx) {
 						coins = sdk.NewCoins(sdk.NewCoin("uosmo", sdkmath.NewIntFromBigInt(r.BigMag(2, 20))))
 					}
 					start := ch.Ctx.BlockTime()
-					switch r.Intn(3) {
+					switch r.Intn(4) {
 					case 0:
 						start = start.Add(-time.Duration(r.I64n(int64(epochDur))))
 					case 1:
 						start = start.Add(time.Duration(r.I64n(int64(2 * epochDur))))
+					case 2:
+						// exactly the block time of the coming epoch block: the gauge is active from that block on
+						if plannedEpochTime.After(start) {
+							start = plannedEpochTime
+						}
 					}
 					du := durs[r.Intn(len(durs))]
 					d := lockDenoms[r.Intn(2)]
@@ -187,7 +200,10 @@ func runC09(c *vk.Ctx) {
 			// move to a block time past the epoch end; the epoch fires in the BeginBlock of the NEXT block we run
 			info := ch.App.EpochsKeeper.GetEpochInfo(ch.Ctx, "week")
 			end := info.CurrentEpochStartTime.Add(info.Duration)
-			dt := end.Sub(ch.Ctx.BlockTime()) + time.Duration(1+r.I64n(int64(10*time.Minute)))
+			dt := plannedEpochTime.Sub(ch.Ctx.BlockTime())
+			if dt <= 0 || !plannedEpochTime.After(end) {
+				dt = end.Sub(ch.Ctx.BlockTime()) + time.Duration(1+r.I64n(int64(10*time.Minute)))
+			}
 			if dt < 0 {
 				dt = time.Second
 			}
@@ -219,6 +235,9 @@ func runC09(c *vk.Ctx) {
 					continue
 				}
 				nLockGauges++
+				if now.Equal(g.StartTime) {
+					c.Count("gauges_starting_exactly_at_the_epoch_block", 1)
+				}
 				locks := lk.GetLocksLongerThanDurationDenom(ctx, g.DistributeTo.Denom, g.DistributeTo.Duration)
 				nQual += len(locks)
 				remain := g.Coins.Sub(g.DistributedCoins...)
@@ -407,6 +426,7 @@ func runC09(c *vk.Ctx) {
 				return
 			}
 			c.Class("g%d|locks%d|otherRcv%v|skipMin%v|finishing%v|noLocks%v|spam%v|precious%v", bucket(nLockGauges), bucket(nQual), anyOtherReceiver, anySkippedMin, anyFinishing, anyNoLocks, anySpamRule, anyPrecious)
+			planEpoch()
 			doOps(2 + r.Intn(8))
 		}
 		if i < 2 {
